@@ -147,6 +147,25 @@ harness! { fn c10_expand_arbitrary_len1_noseed() unwind 40 { expand_arbitrary(1,
 harness! { fn c10_expand_arbitrary_len0() unwind 40 { expand_arbitrary(0, true, 0) }}
 harness! { fn c10_expand_arbitrary_len8_noseed() unwind 28 { expand_arbitrary(8, false, 0) }}
 
+/// level words with bits a real key can never produce (levels above 25, every bit set): concrete per
+/// instance, every other byte symbolic; refused without a crash, with and without a seed
+fn bogus_level_word(word: u32) {
+    type H = Havoc16;
+    let mut buf: [u8; 40] = kani::any();
+    buf[..4].copy_from_slice(&word.to_be_bytes());
+    let seed: [u8; 16] = kani::any();
+    let with_seed: bool = kani::any();
+    let r = if with_seed { hss_expand_aux_data::<H>(Some(&mut buf[..]), Some(&seed)) } else { hss_expand_aux_data::<H>(Some(&mut buf[..]), None) };
+    // totality is the claim (no panic for level bits above the tallest tree); refusal only where the
+    // announced levels cannot fit the buffer
+    if word == 0xffff_ffff { assert!(r.is_none(), "a level word announcing more than the buffer holds is refused"); }
+    kani::cover!(with_seed, "with seed");
+    kani::cover!(!with_seed, "without seed");
+}
+harness! { fn c10_bogus_level_word_all_ones() unwind 40 { bogus_level_word(0xffff_ffff) }}
+harness! { fn c10_bogus_level_word_bit26() unwind 40 { bogus_level_word(0x8400_0000) }}
+harness! { fn c10_bogus_level_word_bit30() unwind 40 { bogus_level_word(0xc000_0002) }}
+
 /// Fresh buffer path of key generation: marker, layout, and the MAC written by hss_finalize_aux_data
 /// is the same HMAC over the same area (so what keygen writes is what the guard above accepts).
 harness! { fn c10_fresh_buffer_layout_and_finalize() unwind 70 {
